@@ -252,7 +252,7 @@ func (e *engine) Info() core.Info {
 	return core.Info{
 		Prop:  "C10",
 		Level: "exploration",
-		Rule:  "a case is one seeded history: a pool of 2-6 spatial references parsed from a 21-entry catalogue (registry names = shared pointers, 3- and 7-parameter datums needing the WGS84 hop, same-datum pairs, non-enu axis orders, +pm, +units, +nadgrids), 2-4 simulated clients that build transformers over the shared pool and whose calls the tape interleaves (<=60 operations, positions inside and outside the usable region), plus Geom.Transform on all eight geometry types with a pure stub transformer wrapped by a fault injector that fails on a tape-chosen vertex; non-trivial = some transformer was called at least twice AND another transformer sharing one of its spatial references was called in between, or a fault fired on a non-first vertex of a multi-part geometry; distinct = distinct hash of the operation/result log",
+		Rule:  "a case is one seeded history: a pool of 2-6 spatial references parsed from a 21-entry catalogue (registry names = shared pointers, 3- and 7-parameter datums needing the WGS84 hop, same-datum pairs, non-enu axis orders, +pm, +units, +nadgrids), 2-4 simulated clients that build transformers over the shared pool and whose calls the tape interleaves (<=60 operations, positions inside and outside the usable region), plus Geom.Transform on all eight geometry types (collections nested up to 40 levels, closed rings, signed zeros, huge values) with a pure sign-of-zero-sensitive stub transformer, optionally re-entrant (it runs another Geom.Transform from inside), wrapped by a fault injector that fails on a tape-chosen vertex; non-trivial = some transformer was called at least twice AND another transformer sharing one of its spatial references was called in between, or a fault fired on a non-first vertex of a multi-part geometry; distinct = distinct hash of the operation/result log",
 		Real:  []string{"proj.Parse, (*SR).NewTransform and its closures, Transformers(), datumTransform, adjust_axis, all projection kernels reached by the catalogue", "Geom.Transform for Point, MultiPoint, LineString, MultiLineString, Polygon, MultiPolygon, GeometryCollection, *Bounds"},
 		Stubs: []string{"for the Geom.Transform clauses: a pure affine stub transformer wrapped by the fault injector (the proj.Transformer function type is the seam)", "fresh-world oracle: same real code, newly parsed references, single call"},
 		FaultKinds: []string{
@@ -499,7 +499,22 @@ func (r *run) call(client int) {
 
 var errInjected = errors.New("verif: injected transformer failure")
 
-func stub(x, y float64) (float64, float64) { return 2*x + 1, 3 - y }
+// stub is the pure transformer of the Geom.Transform clauses: affine, except
+// that it tells +0 from -0 (as atan2, 1/x or an antimeridian cut would).
+func stub(x, y float64) (float64, float64) {
+	a, b := 2*x+1, 3-y
+	if x == 0 {
+		a = math.Copysign(5, x)
+	}
+	if y == 0 {
+		b = math.Copysign(9, y)
+	}
+	return a, b
+}
+
+func bitsEq(p, q geom.Point) bool {
+	return math.Float64bits(p.X) == math.Float64bits(q.X) && math.Float64bits(p.Y) == math.Float64bits(q.Y)
+}
 
 type gctx struct {
 	r     *run
@@ -510,6 +525,15 @@ type gctx struct {
 func (g *gctx) pt() geom.Point {
 	g.next++
 	p := geom.Point{X: g.next, Y: g.next + 0.25}
+	if g.r.t.OneIn(8, "special-coord") {
+		// zeros of either sign, negative and huge values
+		sp := []float64{0, math.Copysign(0, -1), -g.next, 1e300, -1e-300}
+		if g.r.t.Bool("special-x") {
+			p.X = sp[g.r.t.Choose(len(sp), "special-v")]
+		} else {
+			p.Y = sp[g.r.t.Choose(len(sp), "special-v")]
+		}
+	}
 	g.verts = append(g.verts, p)
 	return p
 }
@@ -523,7 +547,14 @@ func (g *gctx) pts(max int, label string) []geom.Point {
 	if n >= 2 && g.r.t.OneIn(3, "closed-ring") {
 		// closed ring / repeated vertex: last == first
 		out[n-1] = out[0]
-		g.verts[len(g.verts)-1] = out[0]
+		if g.r.t.OneIn(3, "closed-signed-zero") {
+			// … or equal under == but not bit-identical (+0 vs -0)
+			out[0].X = 0
+			out[n-1] = out[0]
+			out[n-1].X = math.Copysign(0, -1)
+			g.verts[len(g.verts)-n] = out[0]
+		}
+		g.verts[len(g.verts)-1] = out[n-1]
 	}
 	return out
 }
@@ -571,6 +602,25 @@ func (g *gctx) gen(depth int) geom.Geom {
 		g.verts = append(g.verts, bb.Min, geom.Point{X: bb.Max.X, Y: bb.Min.Y}, bb.Max, geom.Point{X: bb.Min.X, Y: bb.Max.Y})
 		return bb
 	default:
+		if depth == 0 && t.OneIn(6, "gc-deep-chain") {
+			// a chain of directly nested collections, 2..40 levels deep, with
+			// a few siblings on the way
+			levels := 2 + t.Choose(39, "gc-levels")
+			var inner geom.Geom = g.gen(3)
+			for l := 0; l < levels; l++ {
+				c := geom.GeometryCollection{}
+				if t.OneIn(3, "gc-sibling-before") {
+					c = append(c, g.pt())
+				}
+				c = append(c, inner)
+				if t.OneIn(3, "gc-sibling-after") {
+					c = append(c, geom.LineString(g.pts(2, "gc-sib-ls")))
+				}
+				inner = c
+			}
+			g.r.res.Probe("deeply-nested-collection")
+			return inner
+		}
 		c := make(geom.GeometryCollection, t.Choose(4, "gc-n"))
 		for i := range c {
 			c[i] = g.gen(depth + 1)
@@ -679,7 +729,7 @@ func sameGeom(a, b geom.Geom) bool {
 			return false
 		}
 		for i := range p {
-			if p[i] != q[i] {
+			if !bitsEq(p[i], q[i]) {
 				return false
 			}
 		}
@@ -687,7 +737,7 @@ func sameGeom(a, b geom.Geom) bool {
 	}
 	switch v := a.(type) {
 	case geom.Point:
-		return v == b.(geom.Point)
+		return bitsEq(v, b.(geom.Point))
 	case geom.MultiPoint:
 		return eqPts(v, b.(geom.MultiPoint))
 	case geom.LineString:
@@ -737,7 +787,8 @@ func sameGeom(a, b geom.Geom) bool {
 		}
 		return true
 	case *geom.Bounds:
-		return *v == *b.(*geom.Bounds)
+		w := b.(*geom.Bounds)
+		return bitsEq(v.Min, w.Min) && bitsEq(v.Max, w.Max)
 	}
 	return false
 }
@@ -764,7 +815,25 @@ func (r *run) geomOp() {
 		}
 	case mode == 1 || len(g.verts) == 0:
 		calls := 0
+		// re-entrancy: at a tape-chosen call the transformer itself runs
+		// another Geom.Transform (calls interleaved with the outer one)
+		reAt := -1
+		var inner, innerOrig geom.Geom
+		if t.OneIn(4, "reentrant") && len(g.verts) > 0 {
+			reAt = t.Choose(len(g.verts), "reentrant-at")
+			g2 := &gctx{r: r, next: 1000}
+			inner = g2.gen(2)
+			innerOrig = deepCopy(inner)
+			r.res.Probe("re-entrant-transform")
+		}
+		var innerBad string
 		tr := func(x, y float64) (float64, float64, error) {
+			if calls == reAt {
+				out, err := inner.Transform(func(x, y float64) (float64, float64, error) { a, b := stub(x, y); return a, b, nil })
+				if err != nil || !sameGeom(out, expected(innerOrig)) {
+					innerBad = fmt.Sprintf("nested %T.Transform (run from inside the transformer of an outer %T.Transform) returned (%v, %v), want %v", inner, in, out, err, expected(innerOrig))
+				}
+			}
 			calls++
 			a, b := stub(x, y)
 			return a, b, nil
@@ -779,6 +848,10 @@ func (r *run) geomOp() {
 		}
 		if err != nil {
 			r.fail("geom-transform-wrong", "spurious-error", "%T.Transform returned error %v although the transformer never failed", in, err)
+			return
+		}
+		if innerBad != "" {
+			r.fail("geom-transform-wrong", "re-entrant", "%s", innerBad)
 			return
 		}
 		if want := expected(orig); !sameGeom(out, want) {
